@@ -1,4 +1,5 @@
 import ErbiumModel.Model.DnsRelay
+import ErbiumModel.Lemmas.DnsMessage
 /-! # C04 — every DNS response is well-formed and respects the transport's size limit -/
 namespace Erbium.Props.C04
 open Erbium Erbium.DnsWire Erbium.DnsRelay
@@ -63,8 +64,7 @@ theorem C04_never_exceeds_limit (p : Pkt) (size : Nat) (w : Bytes)
   split at hs; · cases hs
   split at hs; · cases hs
   simp only at hs
-  have hhdr : ∀ (f1 f2 a b c : Nat), (u16 p.qid ++ [f1, f2] ++ u16 1 ++ u16 a ++ u16 b ++ u16 c).length = 12 := by
-    intros; rfl
+  have hhdr : (hdrOf p).length = 12 := by simp [hdrOf, u16]
   simp only [hhdr] at hs
   cases hn : pushName p.qdomain root 12 with
   | none => simp [hn] at hs
@@ -72,9 +72,9 @@ theorem C04_never_exceeds_limit (p : Pkt) (size : Nat) (w : Bytes)
     obtain ⟨qb, t0⟩ := r0
     have hq0 := hq qb t0 hn
     simp only [hn] at hs
-    generalize hb0 : (u16 p.qid ++ _ ++ u16 1 ++ _ ++ _ ++ _ ++ qb ++ u16 p.qtype ++ u16 p.qclass : Bytes) = buf0 at hs
+    generalize hb0 : (hdrOf p ++ qb ++ u16 p.qtype ++ u16 p.qclass : Bytes) = buf0 at hs
     have hl0 : buf0.length ≤ size ∧ 12 ≤ buf0.length := by
-      rw [← hb0]; simp only [List.length_append, u16_length, List.length_cons, List.length_nil]; omega
+      rw [← hb0]; simp only [List.length_append, u16_length, hhdr]; omega
     cases h1 : pushSection size p.answer buf0 t0 0 with
     | none => simp [h1] at hs
     | some r1 =>
@@ -133,5 +133,13 @@ theorem C04_udp_limit_at_least_512 (q : Pkt) : 512 ≤ udpLimit q := by
 
 /-- the ranges used to rewrite the section counts are the counts' own two-octet fields -/
 theorem C04_counts_rewritten_in_place : Generated.Dns.spliceRanges = [(6, 8), (8, 10), (10, 12)] := by decide
+
+/-- **C04 (a complete response parses, and its counts are its contents).** A response of the decoder's shape that is
+    written completely decodes to itself: it parses as a DNS message, and the header counts the decoder followed were
+    exactly the numbers of records present in each section. -/
+theorem C04_complete_response_decodes_to_itself (p : Pkt) (hw : WfPkt p) (size : Nat) (wire : Bytes) (hs : 512 ≤ size)
+    (hc : Complete p size wire) (hsz : wire.length < 65536) :
+    serialiseWithSize p size = some wire ∧ parse wire = .ok p :=
+  ⟨complete_serialise p size wire hs hw.rcode hc, message_roundtrip p hw size wire hc hsz⟩
 
 end Erbium.Props.C04
